@@ -158,6 +158,8 @@ struct TFacts {
     uniq_declined: BTreeSet<usize>,
     count_in_cb: bool,
     raw_roundtrip: bool,
+    drop_panics: u32,
+    clone_froms: u32,
 }
 
 struct TSlot<Hd: SizedPayload, El: SizedPayload> {
@@ -425,7 +427,7 @@ impl<Hd: SizedPayload, El: SizedPayload> TSt<Hd, El> {
             TOp::Create => self.op_create(op[2], op[3]),
             TOp::Clone => self.op_clone(i, op[2]),
             TOp::Convert => self.op_convert(i, op[2]),
-            TOp::Release => self.op_release(i),
+            TOp::Release => self.op_release(i, op[2], op[3]),
             TOp::WithArcMut => self.op_with_arc_mut(i, op[2], op[3]),
             TOp::IntoThinWrong => self.op_into_thin_wrong(op[2], op[3]),
             TOp::Uniq => self.op_uniq(i, op[2]),
@@ -483,9 +485,35 @@ impl<Hd: SizedPayload, El: SizedPayload> TSt<Hd, El> {
         if self.slots.len() >= MAXS {
             return;
         }
+        let kind = self.slots[i].h.kind();
+        if b & 0x80 != 0 && matches!(kind, TK::Thin | TK::Fat | TK::Prot) {
+            // Clone::clone_from (a provided method a handle type may override): slot i gives up its allocation
+            // and becomes another owner of slot j's
+            let n = self.slots.len();
+            let start = pick(b & 0x7f, n);
+            if let Some(j) = (0..n).map(|d| (start + d) % n).find(|&j| j != i && self.slots[j].h.kind() == kind) {
+                let (ai, aj) = (self.slots[i].alloc, self.slots[j].alloc);
+                let mut dst = self.take(i);
+                match (&mut dst, &self.slots[j].h) {
+                    (TH::Thin(d), TH::Thin(s)) => lib!(d.clone_from(s)),
+                    (TH::Fat(d), TH::Fat(s)) => lib!(d.clone_from(s)),
+                    (TH::Prot(d), TH::Prot(s)) => lib!(d.clone_from(s)),
+                    _ => {}
+                }
+                self.slots[i].h = dst;
+                self.slots[i].alloc = aj;
+                if ai != aj {
+                    self.allocs[aj].owners += 1;
+                    self.allocs[aj].kinds.insert(kind);
+                    self.released(ai);
+                }
+                self.facts.clone_froms += 1;
+                self.log(|| format!("clone_from: slot {} ({:?}, alloc #{}) <- slot {} (alloc #{})", i, kind, ai, j, aj));
+                return;
+            }
+        }
         let ai = self.slots[i].alloc;
         let owners = self.allocs[ai].owners as usize;
-        let kind = self.slots[i].h.kind();
         let mut cb: Option<usize> = None;
         let (nh, how): (Option<TH<Hd, El>>, &'static str) = match &mut self.slots[i].h {
             TH::Thin(t) => match pick(b, 4) {
@@ -651,21 +679,41 @@ impl<Hd: SizedPayload, El: SizedPayload> TSt<Hd, El> {
         }
     }
 
-    fn op_release(&mut self, i: usize) {
+    fn op_release(&mut self, i: usize, b: u8, c: u8) {
         let ai = self.slots[i].alloc;
         let h = self.take(i);
         let kind = h.kind();
-        match h {
-            TH::RawThin(p) => lib!(drop(unsafe { ThinArc::<Hd, El>::from_raw(p) })),
-            TH::RawFat(p) => lib!(drop(unsafe { Arc::from_raw(p) })),
-            #[cfg(feature = "arc-swap")]
-            TH::Swap(s) => drop(s),
-            other => lib!(drop(other)),
+        // one release in four runs with a panic armed inside the k-th payload destructor (header = 1, elements
+        // follow): everything still counts as destroyed once (the rest is dropped while unwinding) and the block
+        // must still be returned, as for Box<HeaderSlice<..>>
+        let dp = (b & 0xC0) == 0xC0 && kind != TK::Swap;
+        if dp {
+            let n = self.allocs[ai].els.len() + 1;
+            tok::drop_panic_at(1 + pick(c, n.min(6)) as i64);
+        }
+        #[cfg(feature = "arc-swap")]
+        let h = match h {
+            TH::Swap(s) => {
+                drop(s);
+                TH::Gone
+            }
+            o => o,
+        };
+        let r = lib!(catch_unwind(AssertUnwindSafe(move || match h {
+            TH::RawThin(p) => drop(unsafe { ThinArc::<Hd, El>::from_raw(p) }),
+            TH::RawFat(p) => drop(unsafe { Arc::from_raw(p) }),
+            other => drop(other),
+        })));
+        tok::drop_panic_at(0);
+        let unwound = r.is_err();
+        drop(r);
+        if unwound {
+            self.facts.drop_panics += 1;
         }
         self.released(ai);
         self.slots.remove(i);
         let o = self.allocs[ai].owners;
-        self.log(|| format!("release slot {} ({:?}, alloc #{}); owners now {}", i, kind, ai, o));
+        self.log(|| format!("release slot {} ({:?}, alloc #{}){}; owners now {}", i, kind, ai, if unwound { " (a payload destructor panicked)" } else { "" }, o));
     }
 
     /// A fat Arc whose recorded length is wrong is created and fed to into_thin right away.
@@ -941,7 +989,7 @@ impl<Hd: SizedPayload, El: SizedPayload> TSt<Hd, El> {
             let b = order.get(k).copied().unwrap_or(0);
             k += 1;
             let i = pick(b, self.slots.len());
-            self.op_release(i);
+            self.op_release(i, 0, 0);
             self.check_all();
         }
         for id in tok::live_ids() {
@@ -1024,6 +1072,12 @@ impl<Hd: SizedPayload, El: SizedPayload> Engine for ThinEngine<Hd, El> {
         }
         if f.with_arc_mut_replace {
             labels.push("with_arc_mut-replaced");
+        }
+        if f.drop_panics >= 1 {
+            labels.push("a payload destructor panicked during a release");
+        }
+        if f.clone_froms >= 1 {
+            labels.push("clone_from");
         }
         if f.with_arc_mut_panic {
             labels.push("with_arc_mut-panicked");
